@@ -508,7 +508,11 @@ fn oracle_c11(env: &Env, txs: &[Transaction], acc: &mut Acc) -> Vec<Obs> {
                         }
                     }
                     let ever = if last_zero.is_some() { since } else { ever };
-                    if net <= lower {
+                    // (the must-accept bracket is only sound where every reading agrees on what the pool holds: the
+                    // tool's cost pre-pass deliberately ignores 30-day identification, so it is applied to ledgers
+                    // without 30-day legs only)
+                    let has_bnb = r.disposals.iter().any(|d| d.ticker == tk && d.legs.iter().any(|l| l.rule == Rule::Bnb));
+                    if net <= lower && !has_bnb {
                         acc.bump("bracket:return-absorbable");
                         if let Outcome::Err { msg, .. } = &out {
                             res.extend(with_ctx(vec![ob("absorbable-return-refused", format!("{}: net return {} does not exceed the pool's remaining expenditure {} yet the run fails: {msg}", alpha::dsl_line(e), net, lower))], ctx.clone(), None));
